@@ -2877,6 +2877,9 @@ func (dsc *dataStoreCommand) setMove(source, destination, memberName string) (ou
 	}
 
 	ss.remove(memberName)
+	if ss.count == 0 {
+		dsc.ds.data.remove(source)
+	}
 
 	// the member was moved out of the source, whether or not the destination already had it
 	output.data = respInt(1)
